@@ -56,8 +56,10 @@ def run(idx, rep, tier):
         want = ("fn", fp, sym(a))
         for r in rets:
             t = te.eval_in(fi, r.value)
-            ok = equal(t, want, defs=defs)
-            rep.decide(ok, "function-rule", construct, f"returns {show(norm(expand(t, defs)))}; required {fp}({show(norm(expand(sym(a), defs)))}) = {show(norm(expand(want, defs)))}"
+            hyp = guard_hyps(idx, fi, r)
+            ok = equal(t, want, hyp, defs)
+            hy = (" under " + ", ".join(sorted(f"{h[0]}({show(h[1])})" for h in hyp))) if hyp else ""
+            rep.decide(ok, "function-rule", construct, f"returns {show(norm(expand(t, defs), hyp))}; required {fp}({show(norm(expand(sym(a), defs), hyp))}) = {show(norm(expand(want, defs), hyp))}{hy}"
                        + (f" [outside the grammar: {opaque_text(norm(t))}]" if ok is None else ""), detail="" if ok else "meaning", locs=[idx.loc(fi.module, r)])
         rec = [c for c in df.calls(fi.node) if isinstance(c.func, ast.Name) and c.func.id == "apply_unary"]
         if rec:
@@ -95,7 +97,11 @@ def run(idx, rep, tier):
             for r in [r for r in df.returns(fi.node) if r.value is not None]:
                 t = norm(te.eval_in(fi, r.value))
                 ok = t == ("fn", f"pow:{expo}", sym(a))
-                rep.decide(ok, "function-rule", rule.role, f"returns {show(t)}; required pow({a}, {expo})", detail="" if ok else "exponent", locs=[idx.loc(fi.module, r)])
+                if not ok and t[0] == "fn" and not str(t[1]).startswith("pow:") and t[2] == sym(a) and isinstance(r.value, ast.Call) and r.value.args:
+                    # the same function written as an element-wise map handed to apply_unary: x -> sqrt(x), x -> 1 / sqrt(x), x -> x ** e
+                    e = scalar_exponent(r.value.args[0])
+                    ok = None if e is None else abs(e - expo) < 1e-12
+                rep.decide(ok, "function-rule", rule.role, f"returns {show(t)}; required pow({a}, {expo}) or the same element-wise map", detail="" if ok else "exponent", locs=[idx.loc(fi.module, r)])
                 fwd_alg(rep, rule, fi, "pow")
     for rule in res.rules_of("pow"):
         fi = rule.func
@@ -171,6 +177,34 @@ def krylov_ctor(idx, rep, rule, rets):
         c = r.value
         ok = isinstance(c, ast.Call) and len(c.args) >= 2 and ast.unparse(c.args[0]) == a and ast.unparse(c.args[1]) == fp
         rep.decide(ok, "function-rule", rule.role, f"constructs {ast.unparse(c)[:60]}" + ("" if ok else f"; expected ({a}, {fp}, ...)"), detail="" if ok else "args", locs=[idx.loc(fi.module, r)])
+
+
+def scalar_exponent(fn, var=None):
+    """exponent e such that the element-wise map is x -> x ** e, or None: xnp.sqrt, lambda x: x ** c, 1 / g(x), sqrt(g(x)), g(x) ** c"""
+    if isinstance(fn, (ast.Attribute, ast.Name)) and var is None:
+        name = fn.attr if isinstance(fn, ast.Attribute) else fn.id
+        return {"sqrt": 0.5}.get(name)
+    if isinstance(fn, ast.Lambda) and var is None and len(fn.args.args) == 1:
+        return scalar_exponent(fn.body, fn.args.args[0].arg)
+    if var is None:
+        return None
+    if isinstance(fn, ast.Name) and fn.id == var:
+        return 1.0
+    if isinstance(fn, ast.BinOp) and isinstance(fn.op, ast.Pow):
+        c = fn.right
+        neg = isinstance(c, ast.UnaryOp) and isinstance(c.op, ast.USub)
+        c = c.operand if neg else c
+        b = scalar_exponent(fn.left, var)
+        if b is not None and isinstance(c, ast.Constant) and isinstance(c.value, (int, float)):
+            return b * (-c.value if neg else c.value)
+        return None
+    if isinstance(fn, ast.BinOp) and isinstance(fn.op, ast.Div) and isinstance(fn.left, ast.Constant) and fn.left.value in (1, 1.0):
+        b = scalar_exponent(fn.right, var)
+        return None if b is None else -b
+    if isinstance(fn, ast.Call) and len(fn.args) == 1 and ((isinstance(fn.func, ast.Attribute) and fn.func.attr == "sqrt") or (isinstance(fn.func, ast.Name) and fn.func.id == "sqrt")):
+        b = scalar_exponent(fn.args[0], var)
+        return None if b is None else b / 2
+    return None
 
 
 def int_test(test, k):
